@@ -128,6 +128,9 @@ def rand_data(rng):
         d['f'] = {'$fn': rng.choice(sorted(FUNCS))}
     if rng.random() < 0.8:
         d['s'] = rng.choice(['abc', '', 'hello world'])
+    if rng.random() < 0.15:
+        # context data shadows a builtin: the data wins
+        d[rng.choice(['abs', 'max', 'len', 'int'])] = rng.choice([{'$fn': 'inc'}, {'$fn': 'ident'}, 7])
     return d
 
 
@@ -449,7 +452,8 @@ def oracle_lex(case):
                     want.append(['TEXT', s])
         elif k == 'e':
             text += '${' + s + '}'
-            want.append(['EXPR', s.strip()])
+            if s.strip():               # an empty ${} yields nothing
+                want.append(['EXPR', s.strip()])
         elif k == 'n':
             text += '$' + s
             want.append(['EXPR', s])
@@ -483,11 +487,17 @@ def gen_cases(rng, n):
         eg.bound = []
         eg.maxdepth = rng.choice([2, 3, 3, 4, 5])
         eg.p_undef = rng.choice([0.0, 0.0, 0.05, 0.15])
-        tree = eg.expr(0)
+        typed = rng.random() < 0.6
+        tree = eg.int_expr(0) if typed else eg.expr(0)
         src = G.unparse_ok(ast.Expression(tree), 'eval')
         if src is None or not in_hypothesis(src):
             continue
-        cases.append({'kind': 'eval', 'src': src, 'lookup': rng.choice(['strict', 'lenient']), 'data': rand_data(rng)})
+        data = rand_data(rng)
+        if typed and rng.random() < 0.8:
+            for nm in ['a', 'b', 'c', 'x', 'y', 'n']:      # mostly-defined, int-valued context
+                if not isinstance(data.get(nm), int) or isinstance(data.get(nm), bool):
+                    data[nm] = rng.choice([0, 1, 2, 3, 5, -2])
+        cases.append({'kind': 'eval', 'src': src, 'lookup': rng.choice(['strict', 'lenient']), 'data': data})
     return cases
 
 
@@ -597,15 +607,21 @@ def compare_model(cases, res):
             continue
         try:
             node = ev._parse(c['src'], 'eval')
-            want = G.to_wire(ev.ExpressionASTTransformer().visit(copy.deepcopy(node)).body)
             req = proto.line(Atom('C03'), Atom('xform'), G.to_wire(node.body))
         except RecursionError:
             res.count('model:recursion-limit')
             continue
         except SyntaxError:
             continue
+        try:
+            want = [Atom('ok'), G.to_wire(ev.ExpressionASTTransformer().visit(copy.deepcopy(node)).body)]
+        except RecursionError:
+            res.count('model:recursion-limit')
+            continue
+        except Exception as e:  # noqa: the real transformer never raises on a parsed tree
+            want = Atom('raises:' + type(e).__name__)
         lines.append(req)
-        meta.append(('xform', c, [Atom('ok'), want]))
+        meta.append(('xform', c, want))
     answers = proto.run_lines(lines)
     for (what, c, want), ans in zip(meta, answers):
         if ans == 'unmodelled':
@@ -634,7 +650,7 @@ def shard(arg):
     res = Result()
     cases = gen_cases(rng, n)
     if idx == 0:
-        cases += [{'kind': 'eval', 'src': s, 'lookup': lk, 'data': d} for s, d in HAND for lk in ('strict', 'lenient')]
+        cases = [{'kind': 'eval', 'src': s, 'lookup': lk, 'data': d} for s, d in HAND for lk in ('strict', 'lenient')] + cases
     cases += gen_lex(rng, nlex)
     cases += gen_lex_raw(rng, nlex * 4)
     for c in cases:
@@ -658,7 +674,7 @@ def shard(arg):
 
 def run(ctx):
     nsh = 16
-    args = [(ctx.seed, i, ctx.n(900, 60000), ctx.n(150, 6000)) for i in range(nsh)]
+    args = [(ctx.seed, i, ctx.n(900, 25000), ctx.n(150, 3000)) for i in range(nsh)]
     res = Result()
     for r in pmap('harness.props.c03', 'shard', args):
         res.merge(r)
